@@ -3,7 +3,7 @@ use super::*;
 use anstyle::{Ansi256Color, AnsiColor, Color, RgbColor};
 
 const NEVER: usize = 99;
-const MAXCALLS: usize = 6;
+const MAXCALLS: usize = 5;
 
 fn ansi_index(c: AnsiColor) -> u8 {
     use AnsiColor::*;
@@ -137,49 +137,24 @@ fn printable() -> u8 {
     c
 }
 
-/// Skeleton `c1 ESC [ 3 d ; 4 e m c2 c3`: two runs, the second with 16-colour fg and bg.
-/// Concrete structure, symbolic text / colour digits / cut position / console script.
-fn skeleton() -> ([u8; 11], u8, u8) {
+/// Skeleton `c1 ESC [ 3 d ; 4 e m c2`: two runs, the second with 16-colour fg and bg.
+/// Concrete structure, symbolic text / colour digits / console script.
+const LEN: usize = 10;
+fn skeleton() -> ([u8; LEN], u8, u8) {
     let d: u8 = kani::any();
     let e: u8 = kani::any();
     kani::assume(d < 8 && e < 8);
-    let buf = [
-        printable(),
-        0x1B,
-        b'[',
-        b'3',
-        b'0' + d,
-        b';',
-        b'4',
-        b'0' + e,
-        b'm',
-        printable(),
-        printable(),
-    ];
+    let buf = [printable(), 0x1B, b'[', b'3', b'0' + d, b';', b'4', b'0' + e, b'm', printable()];
     (buf, d, e)
 }
 
-/// write_all over any split of the input into two chunks: every run handed over exactly
-/// once, in order, with its colours, and no escape byte as text; errors surface.
-#[kani::proof]
-#[kani::unwind(14)]
-fn write_all_runs_once_in_order() {
-    let (buf, d, e) = skeleton();
-    let cut: usize = kani::any();
-    kani::assume(cut <= 11);
-    let accept: [usize; MAXCALLS] = kani::any();
-    let fail_at: usize = kani::any();
-    kani::assume(fail_at < MAXCALLS || fail_at == NEVER);
-    let kind = any_kind();
-    let mut rec = Rec::new(accept, fail_at, kind);
-    let mut state = crate::adapter::WinconBytes::new();
-    let r1 = write_all(&mut rec, &mut state, &buf[..cut]);
-    let r2 = if r1.is_ok() { write_all(&mut rec, &mut state, &buf[cut..]) } else { Ok(()) };
-    // everything the console accepted, run by run
-    let mut taken0: [u8; 4] = [0; 4]; // default-colour text
+/// Everything the console accepted, checked run by run.  Returns (ok, default-colour
+/// bytes taken, coloured bytes taken, first default byte, first coloured byte).
+fn accepted(rec: &Rec, fail_at: usize, d: u8, e: u8) -> (bool, usize, usize, u8, u8) {
     let mut n0 = 0usize;
-    let mut taken1: [u8; 4] = [0; 4]; // coloured text
     let mut n1 = 0usize;
+    let mut b0 = 0u8;
+    let mut b1 = 0u8;
     let mut ok = true;
     let mut i = 0;
     while i < MAXCALLS {
@@ -193,20 +168,22 @@ fn write_all_runs_once_in_order() {
                         ok = false;
                     }
                     if c.fg.is_none() && c.bg.is_none() {
-                        // default-colour text must come before any coloured text
-                        if n1 > 0 || n0 >= 4 {
+                        // default-colour text comes before any coloured text
+                        if n1 > 0 {
                             ok = false;
-                        } else {
-                            taken0[n0] = c.data[k];
-                            n0 += 1;
                         }
+                        if n0 == 0 {
+                            b0 = c.data[k];
+                        }
+                        n0 += 1;
                     } else {
-                        if c.fg != Some(d) || c.bg != Some(e) || n1 >= 4 {
+                        if c.fg != Some(d) || c.bg != Some(e) {
                             ok = false;
-                        } else {
-                            taken1[n1] = c.data[k];
-                            n1 += 1;
                         }
+                        if n1 == 0 {
+                            b1 = c.data[k];
+                        }
+                        n1 += 1;
                     }
                 }
                 k += 1;
@@ -214,68 +191,89 @@ fn write_all_runs_once_in_order() {
         }
         i += 1;
     }
-    assert!(ok, "runs carry their 16-colour fg/bg, in order, and no escape byte is passed as text");
-    // an interruption is retried (the script fails only once), every other error ends the call
-    let failed = fail_at != NEVER && rec.n > fail_at && kind != std::io::ErrorKind::Interrupted;
-    match (r1.is_ok(), r2.is_ok()) {
-        (true, true) => {
-            assert!(!failed, "an error of the console writer reaches the caller");
-            assert!(n0 == 1 && taken0[0] == buf[0], "first run handed over exactly once");
-            assert!(n1 == 2 && taken1[0] == buf[9] && taken1[1] == buf[10], "second run handed over exactly once");
-            kani::cover!(cut == 3);
-            kani::cover!(rec.n > 2);
-            kani::cover!(kind == std::io::ErrorKind::Interrupted && fail_at != NEVER && rec.n > fail_at);
-        }
-        _ => {
-            // either the injected error, or a console that accepted nothing (WriteZero)
-            let e = if let Err(e) = r1 { e } else { r2.unwrap_err() };
-            assert!(
-                (failed && e.kind() == kind) || e.kind() == std::io::ErrorKind::WriteZero,
-                "errors reach the caller with their kind"
-            );
-            // nothing was handed over twice
-            assert!(n0 <= 1 && n1 <= 2);
-            core::mem::forget(e);
-            kani::cover!(failed);
-        }
-    }
-    core::mem::forget(state);
+    (ok, n0, n1, b0, b1)
 }
+
+macro_rules! write_all_case {
+    ($name:ident, $cut:expr) => {
+        /// write_all of the skeleton split at byte `$cut` into two calls: every run handed
+        /// over exactly once, in order, with its colours, no escape byte as text; short
+        /// counts are resumed, an interruption is retried, other errors surface.
+        #[kani::proof]
+        #[kani::unwind(12)]
+        fn $name() {
+            let (buf, d, e) = skeleton();
+            let accept: [usize; MAXCALLS] = kani::any();
+            let fail_at: usize = kani::any();
+            kani::assume(fail_at < MAXCALLS || fail_at == NEVER);
+            let kind = any_kind();
+            let mut rec = Rec::new(accept, fail_at, kind);
+            let mut state = crate::adapter::WinconBytes::new();
+            let r1 = write_all(&mut rec, &mut state, &buf[..$cut]);
+            let r2 = if r1.is_ok() { write_all(&mut rec, &mut state, &buf[$cut..]) } else { Ok(()) };
+            let (ok, n0, n1, b0, b1) = accepted(&rec, fail_at, d, e);
+            assert!(ok, "runs carry their 16-colour fg/bg, in order, and no escape byte is passed as text");
+            // an interruption is retried (the script fails only once), every other error ends the call
+            let failed = fail_at != NEVER && rec.n > fail_at && kind != std::io::ErrorKind::Interrupted;
+            match (r1.is_ok(), r2.is_ok()) {
+                (true, true) => {
+                    assert!(!failed, "an error of the console writer reaches the caller");
+                    assert!(n0 == 1 && b0 == buf[0], "first run handed over exactly once");
+                    assert!(n1 == 1 && b1 == buf[LEN - 1], "second run handed over exactly once");
+                    kani::cover!(rec.n > 2);
+                    kani::cover!(kind == std::io::ErrorKind::Interrupted && fail_at != NEVER && rec.n > fail_at);
+                }
+                _ => {
+                    // either the injected error, or a console that accepted nothing (WriteZero)
+                    let err = if let Err(x) = r1 { x } else { r2.unwrap_err() };
+                    assert!(
+                        (failed && err.kind() == kind) || err.kind() == std::io::ErrorKind::WriteZero,
+                        "errors reach the caller with their kind"
+                    );
+                    assert!(n0 <= 1 && n1 <= 1, "nothing is handed over twice");
+                    core::mem::forget(err);
+                    kani::cover!(failed);
+                }
+            }
+            core::mem::forget(state);
+        }
+    };
+}
+
+write_all_case!(write_all_cut_0, 0);
+write_all_case!(write_all_cut_1, 1);
+write_all_case!(write_all_cut_2, 2);
+write_all_case!(write_all_cut_5, 5);
+write_all_case!(write_all_cut_9, 9);
 
 /// write(): reports the buffer as consumed only if all of its text was handed over.
 #[kani::proof]
-#[kani::unwind(14)]
+#[kani::unwind(12)]
 fn write_reports_consumed_only_if_handed_over() {
-    let (buf, _d, _e) = skeleton();
+    let (buf, d, e) = skeleton();
     let accept: [usize; MAXCALLS] = kani::any();
     #[cfg(feature = "kf_c18_short_console_write")]
-    kani::assume(accept[0] >= 1 && accept[1] >= 2);
+    kani::assume(accept[0] >= 1 && accept[1] >= 1);
     let fail_at: usize = kani::any();
     kani::assume(fail_at < 3 || fail_at == NEVER);
     let kind = any_kind();
     let mut rec = Rec::new(accept, fail_at, kind);
     let mut state = crate::adapter::WinconBytes::new();
     let r = write(&mut rec, &mut state, &buf);
-    let mut handed = 0usize;
-    let mut i = 0;
-    while i < MAXCALLS {
-        if i < rec.n && i != fail_at {
-            handed += rec.calls[i].taken;
-        }
-        i += 1;
-    }
+    let (ok, n0, n1, _b0, _b1) = accepted(&rec, fail_at, d, e);
+    assert!(ok, "runs carry their 16-colour fg/bg, in order, and no escape byte is passed as text");
     match r {
         Ok(n) => {
-            assert!(n <= 11, "count no larger than the buffer");
+            assert!(n <= LEN, "count no larger than the buffer");
             assert!(fail_at == NEVER || rec.n <= fail_at, "an error of the console writer reaches the caller");
-            if n == 11 {
-                assert!(handed == 3, "the buffer is reported consumed only if all of its text was handed over");
+            if n == LEN {
+                assert!(n0 + n1 == 2, "the buffer is reported consumed only if all of its text was handed over");
             }
-            kani::cover!(n == 11);
+            kani::cover!(n == LEN);
         }
-        Err(e) => {
-            assert!(fail_at != NEVER && rec.n > fail_at && e.kind() == kind, "errors reach the caller with their kind");
-            core::mem::forget(e);
+        Err(err) => {
+            assert!(fail_at != NEVER && rec.n > fail_at && err.kind() == kind, "errors reach the caller with their kind");
+            core::mem::forget(err);
             kani::cover!(fail_at == 1);
         }
     }
